@@ -20,6 +20,7 @@ import (
 	"bytes"
 	"context"
 	"crypto/sha256"
+	"encoding/binary"
 	"encoding/hex"
 	"errors"
 	"io"
@@ -459,8 +460,16 @@ func (a *oauth2IntrospectionAuthenticator) getCacheTTL(introspectResp *oauth2.In
 }
 
 func (a *oauth2IntrospectionAuthenticator) calculateCacheKey(ep *endpoint.Endpoint, templatedURL, token string) string {
+	const int64BytesCount = 8
+
+	// the length of the url separates it from the following value. Without it, different
+	// (url, value) pairs resulting in the same concatenation would share the same cache key
+	urlLen := make([]byte, int64BytesCount)
+	binary.LittleEndian.PutUint64(urlLen, uint64(len(templatedURL)))
+
 	digest := sha256.New()
 	digest.Write(ep.Hash())
+	digest.Write(urlLen)
 	digest.Write(stringx.ToBytes(templatedURL))
 	digest.Write(stringx.ToBytes(token))
 
